@@ -145,9 +145,13 @@ Definition step (o : obj) (p : op) : obj * ans :=
                             (units o) false (cch o)), AOk)
   | MMulNum z =>
       if ro o then (o, AErr)
-      else (new_values (mko (shaped o) (map (Z.mul z) (vals o)) (mask o) (marr o)
-                            (map (fun d => (fst d, map (Z.mul z) (snd d))) (derivs o))
-                            (units o) false (cch o)), AOk)
+      else
+        (* the derivatives are replaced through insert_derivs, which clears the cache; without
+           derivatives only _new_values_ runs *)
+        let o' := mko (shaped o) (map (Z.mul z) (vals o)) (mask o) (marr o)
+                      (map (fun d => (fst d, map (Z.mul z) (snd d))) (derivs o))
+                      (units o) false (cch o) in
+        (match derivs o with [] => new_values o' | _ => clear o' end, AOk)
   | MAddObj vs ms =>
       if ro o then (o, AErr)
       else if negb (Nat.eqb (length vs) (length (vals o)) && Nat.eqb (length ms) (length (vals o)))
